@@ -120,6 +120,11 @@ func (m *C14) OnBlock(e *Env, blk *world.BlockRecord) {
 		return
 	}
 	evs := ParseEvents(blk.Resp.Events)
+	for _, ev := range evs {
+		if ev.Type == "slash" {
+			e.St.Probe("c14_validator_slashed")
+		}
+	}
 	// minted amount of this block (SDK minter, trusted)
 	minted := sdk.NewCoins()
 	for _, ev := range EventsOfType(evs, minttypes.EventTypeMint) {
